@@ -38,9 +38,9 @@ def run_one(prop: str, tier: str, repo: str, no_calibration: bool) -> int:
         seed = 0
     try:
         mod = importlib.import_module(f"sa.rules.{prop.lower()}")
+        run = Run(prop, tier)
         prog = Program(repo)
         model = Model(prog)
-        run = Run(prop, tier)
         run.analysed.update(prog.stats())
         mod.check(run, prog, model, tier)
         if tier == "thorough" and not no_calibration and hasattr(mod, "MUTANTS"):
